@@ -402,6 +402,7 @@ Record envcfg := {
   ec_orc : oracle;
   ec_imm : nat -> bool;              (* k-th service start completed from inside its notification *)
   ec_react : nat -> option nat;      (* k-th notification to function 0: complete the j-th pending service *)
+  ec_react_all : bool;               (* also from inside finished notifications (else started ones only) *)
   ec_mutate : nat                    (* hostile engine: 0 none, 1 append, 2 clear, 3 replace *)
 }.
 
@@ -844,7 +845,8 @@ Section Sched.
        end) ;;~
       s <~ nget ;;
       nmod (fun s => s <| ns_nnot := S (ns_nnot s) |>) ;;~
-      match ec_react env (ns_nnot s), ns_pending s with
+      match (if ec_react_all env || match k with TS | SS => true | _ => false end
+             then ec_react env (ns_nnot s) else None), ns_pending s with
       | Some j, p0 :: prest =>
         let pend := p0 :: prest in
         let sid := nth (Nat.modulo j (List.length pend)) pend p0 in
@@ -863,14 +865,15 @@ Section Sched.
       s <~ nget ;;
       if existsb (event_eqb ev) (ns_awaited s)
       then
-        r <~ logic_fire_event f' ev ;;
-        if r then
-          s <~ nget ;;
-          match remove_first (event_eqb ev) (ns_awaited s) with
-          | Some l => nmod (fun s => s <| ns_awaited := l |>) ;;~ nret true
-          | None => nfail (Exn ValueError)
-          end
-        else nret false
+        (* the event stops being awaited before it is forwarded to the net *)
+        match remove_first (event_eqb ev) (ns_awaited s) with
+        | None => nfail (Exn ValueError)
+        | Some l =>
+          nmod (fun s => s <| ns_awaited := l |>) ;;~
+          r <~ logic_fire_event f' ev ;;
+          if r then nret true
+          else nmod (fun s => s <| ns_awaited := ns_awaited s ++ [ev] |>) ;;~ nret false
+        end
       else nret false
     end
 
